@@ -206,6 +206,8 @@ class _BaseLayout(MaildirLayout[_MaildirT], metaclass=ABCMeta):
 
     def add_folder(self, name: str, delimiter: str) -> None:
         parts = self._split(name, delimiter)
+        if os.path.isdir(self._get_path(parts)):
+            raise FileExistsError(name)
         for i in range(1, len(parts)):
             if not os.path.isdir(self._get_path(parts[0:i])):
                 self._add_folder(parts[0:i])
